@@ -61,18 +61,30 @@ Definition ac_lookup_of (s : ac_state) (name : string) : ac_lookup :=
        end.
 
 Inductive ac_op :=
-| AcRecord (name : string) (r : Z)        (* InsertTrieNode(fork.GetKey(), fork), as minersc add_hardfork does *)
+| AcRecord (name : string) (r : Z)        (* InsertTrieNode(fork.GetKey(), fork) *)
+| AcRecordMany (req : list (string * Z))  (* one minersc add_hardfork transaction carrying the request map name -> round *)
 | AcCorrupt (name : string)               (* a value that is not a HardFork under the fork's key *)
 | AcDelete (name : string)
 | AcBreak                                 (* the trie loses a node: every read fails with ErrNodeNotFound *)
 | AcQuery (name : string) (br before_err after_err : Z)
 | AcGetRound (name : string).
 
+(* the request map as an association list (names distinct) *)
+Fixpoint ac_assoc (req : list (string * Z)) (name : string) : option Z :=
+  match req with
+  | [] => None
+  | (n, r) :: t => if String.eqb n name then Some r else ac_assoc t name
+  end.
+
+Definition ac_record_many (fs : list (string * ac_entry)) (req : list (string * Z)) : list (string * ac_entry) :=
+  fold_left (fun fs p => (fst p, AcRec (snd p)) :: ac_remove fs (fst p)) req fs.
+
 Inductive ac_out := AcDone | AcRan (b : ac_branch) (ret : Z) | AcRound (r : Z) (e : ac_errkind).
 
 Definition ac_step (s : ac_state) (o : ac_op) : ac_state * ac_out :=
   match o with
   | AcRecord n r => ({| ac_forks := (n, AcRec r) :: ac_remove (ac_forks s) n; ac_broken := ac_broken s |}, AcDone)
+  | AcRecordMany req => ({| ac_forks := ac_record_many (ac_forks s) req; ac_broken := ac_broken s |}, AcDone)
   | AcCorrupt n => ({| ac_forks := (n, AcGarbage) :: ac_remove (ac_forks s) n; ac_broken := ac_broken s |}, AcDone)
   | AcDelete n => ({| ac_forks := ac_remove (ac_forks s) n; ac_broken := ac_broken s |}, AcDone)
   | AcBreak => ({| ac_forks := ac_forks s; ac_broken := true |}, AcDone)
@@ -94,6 +106,7 @@ Definition ac_exec (ops : list ac_op) : ac_state := fst (ac_run ac_init ops).
 Definition ac_touches (name : string) (o : ac_op) : bool :=
   match o with
   | AcRecord n _ | AcCorrupt n | AcDelete n => String.eqb n name
+  | AcRecordMany req => existsb (fun p => String.eqb (fst p) name) req
   | AcBreak => true
   | _ => false
   end.
